@@ -225,6 +225,10 @@ func execC15(spec *RunSpec) *Result {
 		return "tpl"
 	}
 	loaded := map[string]map[int64]map[int]bool{} // coverage classification only
+	// Entry points that consult the template cache today: what they observe of a page or layout is certainly known
+	// to the cache. What the other entry points (and any entry point for components and side files) observe may or
+	// may not reach a cache - today it does not; an engine that served them from a cache would be within the statement
+	// too - so after such an observation the earlier states stay possible next to the new one.
 	cachedPath := func(entry string) bool {
 		switch entry {
 		case "Vue.Render", "Load.Render", "RenderFile", "Base.RenderFile", "Base.Load.Render":
@@ -284,15 +288,12 @@ func execC15(spec *RunSpec) *Result {
 				snap[k] = v
 			}
 			checks = append(checks, pending{i: i, op: op, out: out, cur: snap, amb: amb, flt: sfs.Faulted(i)})
-			// update the engine's view of every file this operation looked at. Pages and layouts go through the
-			// template cache only on the cached entry points; components and side files are read afresh today, but the
-			// statement excludes equal-mtime edits of ANY file from the freshness claim (an engine that cached
-			// components by mtime would be within it), so they are tracked the same way on every entry point.
+			// update the engine's view of every file this operation looked at, on every entry point. Today only
+			// pages and layouts on some entry points go through the template cache; components, side files and
+			// RenderFragment read afresh - but the statement excludes equal-mtime edits of ANY file from the freshness
+			// claim (an engine that cached components, or served RenderFragment from the cache, would be within it).
 			{
 				for name, mask := range sfs.Observed(i) {
-					if (name == op.File || strings.HasPrefix(name, "layouts/")) && !cachedPath(op.Entry) {
-						continue
-					}
 					for v := 0; v < 32; v++ {
 						if mask&(1<<uint(v)) != 0 {
 							if view[name] == nil {
@@ -307,7 +308,8 @@ func execC15(spec *RunSpec) *Result {
 								main.alt = nil
 								prior = append(append(prior, main), cv.alt...)
 							}
-							uncertain := out.IsErr && name != op.File // see cacheView.alt
+							certain := cachedPath(op.Entry) && (name == op.File || strings.HasPrefix(name, "layouts/"))
+							uncertain := !certain || (out.IsErr && name != op.File) // see cacheView.alt
 							next := cacheView{seenMtime: m, loaded: map[int]bool{}, has: true}
 							for _, st := range prior {
 								if st.seenMtime == m {
